@@ -67,14 +67,21 @@ def run_impl(items, key, flavour, ops):
     if (len(items) + len(ops)) % 3 == 2:
         src = CountProxy(src)
     gb = a.groupby(src, key=keyfun(key, flavour)) if key is not None else a.groupby(src)
+    holder = [gb]
+    del gb
     groups = []
     obs = []
 
     async def go():
         for op in ops:
             try:
-                if op[0] == "adv":
-                    k, g = await gb.__anext__()
+                if op[0] == "drop":
+                    # the caller lets go of the groupby object and keeps only the groups it has
+                    holder[0] = None
+                    import gc
+                    gc.collect()
+                elif op[0] == "adv":
+                    k, g = await holder[0].__anext__()
                     groups.append(g)
                     obs.append(("new", k, len(groups) - 1))
                 elif op[0] == "grp":
@@ -87,7 +94,7 @@ def run_impl(items, key, flavour, ops):
                         await groups[op[1]].aclose()
                     obs.append(("done",))
                 elif op[0] == "close":
-                    await gb.aclose()
+                    await holder[0].aclose()
                     obs.append(("done",))
             except StopAsyncIteration:
                 obs.append(("stop",))
@@ -103,7 +110,9 @@ def run_std(items, key, ops):
     obs = []
     for op in ops:
         try:
-            if op[0] == "adv":
+            if op[0] == "drop":
+                gb = None
+            elif op[0] == "adv":
                 k, g = next(gb)
                 groups.append(g)
                 obs.append(("new", k, len(groups) - 1))
@@ -254,6 +263,7 @@ def aspect_lazy(rep, rng, n):
     fails = 0
     for _ in range(n):
         items, key, ops = gen_case(rng, "quick", with_close=False)
+        ops = [o for o in ops if o[0] != "drop"]
         ta, ts = lazy_run(items, key, ops)
         rep.count(("gb-lazy", repr(items), key, tuple(ops)), len(items) > 1 and len(ops) > 2)
         if ta != ts:
@@ -269,6 +279,7 @@ def aspect_faults(rep, rng, n):
     fails = 0
     for _ in range(n):
         items, key, ops = gen_case(rng, "quick", with_close=False)
+        ops = [o for o in ops if o[0] != "drop"]
         where = rng.choice(["src", "key"])
         k = rng.randrange(1, len(items) + 3)
         exc = rng.choice(FAULT_TYPES)("injected")
@@ -450,6 +461,11 @@ def gen_case(rng, tier, with_close):
             ops.append(("gclose", rng.randrange(0, created + 1)))
         else:
             ops.append(("close",))
+    if not with_close and created and rng.random() < 0.12:
+        # from some point on only the groups are kept, the groupby object itself is dropped
+        j = rng.randrange(1, len(ops) + 1)
+        if builtins.any(o[0] == "adv" for o in ops[:j]):
+            ops = ops[:j] + [("drop",)] + [o for o in ops[j:] if o[0] == "grp"]
     return items, key, ops
 
 
@@ -489,7 +505,7 @@ def run(tier, seed):
     for items, key, ops in cases:
         flavour = rng.choice(["sync", "async"])
         obs, pulls, closes = run_impl(items, key, flavour, ops)
-        adv_only = builtins.all(o[0] in ("adv", "grp") for o in ops)
+        adv_only = builtins.all(o[0] in ("adv", "grp", "drop") for o in ops)
         std = run_std(items, key, ops) if adv_only else None
         lens[len(ops)] = lens.get(len(ops), 0) + 1
         rep.count((repr(items), key, tuple(ops)), len(items) > 1 and len(ops) > 2,
@@ -507,7 +523,7 @@ def run(tier, seed):
                           {"items": repr(items), "key": key, "ops": ops, "why": bad})
             continue
         texts.append("(mkGC [%s] %s [%s] [%s] %d %d %s)" % (
-            "; ".join(coq_val(x) for x in items), coq_opt(key, coq_fn), "; ".join(coq_op(o) for o in ops),
+            "; ".join(coq_val(x) for x in items), coq_opt(key, coq_fn), "; ".join(coq_op(o) for o in ops if o[0] != "drop"),
             "; ".join(coq_obs(o) for o in obs), pulls, closes,
             "None" if std is None else "(Some [%s])" % "; ".join(coq_obs(o) for o in std)))
     fails += aspect_faults(rep, rng, 300 * common.scale(rep) if tier == "quick" else 6000)
